@@ -595,7 +595,7 @@ def _faulty(rng):
         if rng.random() < 0.12:
             # "no upper limit": max_volume = inf is a limit above min_volume; an infinite filling is still not finite
             spec["max_volume"] = mx = INF
-        _poke(rng, spec, vol, R, C, lambda x: rng.choice([mx + 1, mx * 2 + 1, mx + 0.25, math.nextafter(float(mx), INF), INF, 1e12]))
+        _poke(rng, spec, vol, R, C, lambda x: rng.choice([mx + 1, mx * 2 + 1, mx + 0.25, math.nextafter(float(mx), INF), INF, 1e12, 10**30, 2**64]))
     elif fault == "name_empty_well":
         # make sure there is an empty well and name it
         r, c = rng.randrange(R), rng.randrange(C)
